@@ -3,6 +3,7 @@
   About Model/Engine.lean: `complete_operation_as_success/failure`, the ack handlers, `reset`.
 -/
 import GV.Proofs.EngineWF
+import GV.Proofs.EngineClose
 namespace GV.Props.C01
 open GV
 
@@ -215,5 +216,21 @@ theorem pending_entries_name_their_operation (cfg : Config) (evs : List Event) (
     ((runEvents (Engine.new cfg) evs).1.pendingPub.lookup pid = some id →
       ∃ o, (runEvents (Engine.new cfg) evs).1.ops.lookup id = some o ∧ o.packetId = some pid ∧ isAckedPublish o.packet = true) :=
   ⟨(inv_after cfg evs).2.1.tn pid id, (inv_after cfg evs).2.1.tp pid id⟩
+
+/-- **Every operation waits in exactly one place.**  After any history the user queue, the resubmit queue, the
+    written-but-unflushed list, the two pending-acknowledgement tables and the current slot (unless the pending-publish
+    table already accounts for the operation: a PUBREL being written) name no operation twice - so no operation can be
+    sent, acknowledged or resolved from two places. -/
+theorem operation_sits_in_one_place (cfg : Config) (evs : List Event) : (runEvents (Engine.new cfg) evs).1.loc.Nodup :=
+  loc_nodup _ (inv2_after cfg evs).1.2.1 (inv2_after cfg evs).2
+
+/-- the operation being written is in neither queue, and (unless it has been filed by the write in progress) neither
+    written-but-unflushed nor awaiting a SUBACK/UNSUBACK -/
+theorem current_operation_is_nowhere_else (cfg : Config) (evs : List Event) (id : Nat)
+    (h : (runEvents (Engine.new cfg) evs).1.current = some id) :
+    id ∉ (runEvents (Engine.new cfg) evs).1.userQ ∧ id ∉ (runEvents (Engine.new cfg) evs).1.resubQ ∧
+    id ∉ (runEvents (Engine.new cfg) evs).1.pendingWC ∧ id ∉ vals (runEvents (Engine.new cfg) evs).1.pendingNonPub :=
+  let x := (inv2_after cfg evs).2
+  ⟨(x.x4 id h).1, (x.x4 id h).2, x.x1a rfl id h, x.x1b rfl id h⟩
 
 end GV.Props.C01
